@@ -54,6 +54,24 @@ theorem sumTo_nonneg {k : Nat} {f : Nat → Rat} (h : ∀ j, j < k → 0 ≤ f j
     have := h k (Nat.lt_succ_self k)
     linarith
 
+theorem sumTo_shift (k : Nat) (f : Nat → Rat) :
+    sumTo (k + 1) f = f 0 + sumTo k (fun j => f (j + 1)) := by
+  induction k with
+  | zero => simp [sumTo]
+  | succ k ih => rw [sumTo, ih]; simp only [sumTo]; ring
+
+/-- summing in the opposite order -/
+theorem sumTo_reflect (k : Nat) (f : Nat → Rat) : sumTo k (fun j => f (k - 1 - j)) = sumTo k f := by
+  induction k generalizing f with
+  | zero => rfl
+  | succ k ih =>
+    rw [sumTo_shift k f, ← ih (fun j => f (j + 1))]
+    simp only [sumTo, Nat.add_sub_cancel, Nat.sub_self]
+    rw [add_comm]
+    congr 1
+    apply sumTo_congr; intro j hj
+    congr 1; omega
+
 theorem sumTo_one (f : Nat → Rat) : sumTo 1 f = f 0 := by simp [sumTo]
 
 /-! ## flat arrays -/
@@ -250,5 +268,119 @@ theorem clip_scale {c : Rat} (hc : 0 < c) (thr v : Rat) :
     · simp
     · intro h'
       exact h (le_of_mul_le_mul_left h' hc)
+
+
+/-! ## two-dimensional images: pixel view of the axis passes -/
+
+/-- pixel `(r, c)` of an image with rows of length `W` stored in C order -/
+def px (W : Nat) (xs : Array Rat) (r c : Nat) : Rat := get xs (r * W + c)
+
+theorem idx_lt {H W r c : Nat} (hr : r < H) (hc : c < W) : r * W + c < H * W := by
+  have h1 : r * W + c < (r + 1) * W := by rw [Nat.add_mul, Nat.one_mul]; omega
+  exact Nat.lt_of_lt_of_le h1 (Nat.mul_le_mul_right W hr)
+
+theorem idx_div {W r c : Nat} (hc : c < W) : (r * W + c) / W = r := by
+  have hW : 0 < W := Nat.lt_of_le_of_lt (Nat.zero_le _) hc
+  rw [Nat.mul_comm, Nat.mul_add_div hW, Nat.div_eq_of_lt hc, Nat.add_zero]
+
+theorem idx_mod {W r c : Nat} (hc : c < W) : (r * W + c) % W = c := by
+  rw [Nat.add_comm, Nat.add_mul_mod_self_right, Nat.mod_eq_of_lt hc]
+
+/-- a pass along axis 0 of an `H × W` image filters every column -/
+theorem px_axis0 (F : Filt) {H W : Nat} {xs : Array Rat} (hsz : xs.size = H * W) {r c : Nat}
+    (hr : r < H) (hc : c < W) :
+    px W (axisPass F W H xs) r c = F.apply H r (fun t => px W xs t c) := by
+  unfold px axisPass
+  rw [get_tab_lt _ (by rw [hsz]; exact idx_lt hr hc)]
+  simp only [idx_div hc, Nat.mod_eq_of_lt hr, Nat.add_sub_cancel_left]
+  congr 1; funext t; rw [Nat.add_comm]
+
+/-- a pass along axis 1 of an `H × W` image filters every row -/
+theorem px_axis1 (F : Filt) {H W : Nat} {xs : Array Rat} (hsz : xs.size = H * W) {r c : Nat}
+    (hr : r < H) (hc : c < W) :
+    px W (axisPass F 1 W xs) r c = F.apply W c (fun t => px W xs r t) := by
+  unfold px axisPass
+  rw [get_tab_lt _ (by rw [hsz]; exact idx_lt hr hc)]
+  simp only [Nat.div_one, idx_mod hc, Nat.mul_one, Nat.add_sub_cancel]
+
+theorem passes2 (H W : Nat) (F0 F1 : Filt) (xs : Array Rat) :
+    passes [H, W] [F0, F1] xs = axisPass F1 1 W (axisPass F0 W H xs) := by
+  simp [passes]
+
+/-- both passes of a 2-D image, pixel by pixel -/
+theorem px_passes2 {F0 F1 : Filt} (h1 : SrcOK F1) {H W : Nat} {xs : Array Rat}
+    (hsz : xs.size = H * W) {r c : Nat} (hr : r < H) (hc : c < W) :
+    px W (passes [H, W] [F0, F1] xs) r c =
+      F1.apply W c (fun u => F0.apply H r (fun t => px W xs t u)) := by
+  rw [passes2, px_axis1 F1 (by simpa using hsz) hr hc]
+  exact apply_congr h1 hc (fun u hu => px_axis0 F0 hsz hr hu)
+
+@[simp] theorem size_transpose2 (H W : Nat) (xs : Array Rat) : (transpose2 H W xs).size = W * H := by
+  simp [transpose2]
+
+theorem px_transpose2 {H W : Nat} (xs : Array Rat) {r c : Nat} (hr : r < H) (hc : c < W) :
+    px H (transpose2 H W xs) c r = px W xs r c := by
+  unfold px transpose2
+  rw [get_tab_lt _ (idx_lt hc hr), idx_mod hr, idx_div hr]
+
+theorem get_transpose2 {H W : Nat} (xs : Array Rat) {q : Nat} (hq : q < W * H) :
+    get (transpose2 H W xs) q = px W xs (q % H) (q / H) := by
+  unfold px transpose2
+  rw [get_tab_lt _ hq]
+
+/-- the two axis passes of a transposed image, with the filters swapped, give the transposed
+    result: uses that row and column passes commute (`apply_comm`) -/
+theorem passes2_transpose {F0 F1 : Filt} (h0 : SrcOK F0) (h1 : SrcOK F1) {H W : Nat}
+    {xs : Array Rat} (hsz : xs.size = H * W) :
+    passes [W, H] [F1, F0] (transpose2 H W xs) = transpose2 H W (passes [H, W] [F0, F1] xs) := by
+  apply ext_get (by simp)
+  intro q hq
+  have hq' : q < W * H := by simpa using hq
+  have hH : 0 < H := by
+    rcases Nat.eq_zero_or_pos H with h | h
+    · subst h; simp at hq'
+    · exact h
+  have hr : q % H < H := Nat.mod_lt _ hH
+  have hc : q / H < W := by
+    rw [Nat.div_lt_iff_lt_mul hH]; exact hq'
+  rw [get_transpose2 _ hq', px_passes2 h1 hsz hr hc]
+  have hqe : q = (q / H) * H + q % H := by
+    rw [Nat.mul_comm]; exact (Nat.div_add_mod q H).symm
+  have : get (passes [W, H] [F1, F0] (transpose2 H W xs)) q =
+      px H (passes [W, H] [F1, F0] (transpose2 H W xs)) (q / H) (q % H) := by
+    unfold px; rw [← hqe]
+  rw [this, px_passes2 h0 (by simp) hc hr]
+  rw [apply_comm F1 F0 W (q / H) H (q % H) (fun u t => px W xs t u)]
+  apply apply_congr h0 hr; intro t ht
+  apply apply_congr h1 hc; intro u hu
+  exact px_transpose2 xs ht hu
+
+theorem subArr_transpose2 {H W : Nat} {a b : Array Rat} (ha : a.size = H * W) (hb : b.size = H * W) :
+    subArr (transpose2 H W a) (transpose2 H W b) = transpose2 H W (subArr a b) := by
+  apply ext_get (by simp)
+  intro q hq
+  have hq' : q < W * H := by simpa using hq
+  have hH : 0 < H := by
+    rcases Nat.eq_zero_or_pos H with h | h
+    · subst h; simp at hq'
+    · exact h
+  have hr : q % H < H := Nat.mod_lt _ hH
+  have hc : q / H < W := by
+    rw [Nat.div_lt_iff_lt_mul hH]; exact hq'
+  have hi : q % H * W + q / H < a.size := by rw [ha]; exact idx_lt hr hc
+  rw [get_transpose2 _ hq']
+  unfold subArr px
+  rw [get_tab_lt _ (by simpa using hq'), get_tab_lt _ hi, get_transpose2 _ hq', get_transpose2 _ hq']
+  rfl
+
+theorem clip_zero (thr : Rat) : clip thr 0 = 0 := by unfold clip; split <;> rfl
+
+theorem map_transpose2 (f : Rat → Rat) (hf : f 0 = 0) (H W : Nat) (a : Array Rat) :
+    (transpose2 H W a).map f = transpose2 H W (a.map f) := by
+  apply ext_get (by simp)
+  intro q hq
+  have hq' : q < W * H := by simpa using hq
+  rw [get_map f hf, get_transpose2 _ hq', get_transpose2 _ hq']
+  unfold px; rw [get_map f hf]
 
 end TrackpyV.Bandpass
